@@ -9,6 +9,18 @@ BASELINE_OFF = ("cd /repo && env -u TOREAMUN_AMSHAN_VERIF /venv/bin/python -m py
 
 # pid -> (category, text, note, technique, design_ref, engine)
 CHECKS = {
+    "C17": ("model_checking",
+            "Stateless model checking of the real ConnectionManager on a deterministic virtual-time asyncio loop (one step = one callback): every environment script up to the bound (attempt outcomes succeed/fail/slow x connection "
+            "lifetimes) is run once without close() and once per event-loop step k with close() executed before step k - the complete set of interleavings of one external close() with the loop's schedule - with prefix-divergence and "
+            "double-replay determinism checks; invariants on every step (<=1 live transport, no attempt while one is live or in flight or after close(), <=8 pending tasks) and at quiescence (reconnect after every failure/loss; "
+            "connect_loop() returns at the virtual instant of close(), every transport closed, no task left); plus 2000-5000-cycle runs for the task bound.",
+            "Trusted: the explorer owns clock, callback order and factory (fake transport behaves like a real one: close() schedules one connection_lost); one external close() per run; CPython 3.12 asyncio internals.",
+            "exhaustive schedule exploration (close() at every event-loop step of every bounded environment script) on the real code", "DESIGN.md 4/C17", "E6+E4"),
+    "C18": ("model_checking",
+            "Strategy object: explicit-state BFS over snapshots of the real ExponentialBackOff under {failure, reset} to depth 14 (all 2^15-1 sequences land in the 15 visited states) with every max_delay 1..3600 evaluated in every state. "
+            "Manager: every script of outcomes {fail, succeed-then-lost after 1/3/10 s} up to length 6-8 x 5 (threshold, sleep, max_delay) settings on the virtual-time loop with the manager's wall clock substituted by the virtual clock; "
+            "the time stamps of factory calls must satisfy the capped exponential back-off and loss-breaker bounds.",
+            "Trusted: virtual clock substitution through han.meter_connection.datetime; slack 1e-6 s.", "explicit-state exploration of the strategy object + exhaustive bounded environment scripts on the virtual-time loop", "DESIGN.md 4/C18", "E2+E6"),
     "C07": ("model_checking",
             "Bounded-exhaustive input shapes for the Aidon decoder: 8 documented list layouts, every prefix, every rotation, the reversal and every element alone; per integer type (u32, i16, u16) a boundary/bit-pattern/seed alphabet "
             "x every scaler -3..3, alone and inside list 3, and the complete 2^16 range of the i16 and u16 registers; text fields; unknown codes; frame vs bare body. Expected dictionaries from exact Fraction arithmetic.",
